@@ -25,7 +25,7 @@ from common import VERIF, Scratch, run
 
 KANI_DIR = os.path.join(VERIF, "contracts", "kani")
 JOBS = int(os.environ.get("VERIF_JOBS", "14"))
-AS_GB = float(os.environ.get("VERIF_AS_GB", "24"))
+RSS_GB = float(os.environ.get("VERIF_RSS_GB", "10"))
 
 
 def load_unit(name):
@@ -36,9 +36,16 @@ def load_unit(name):
     return mod
 
 
-def apply_overlay(repo, unit, tier):
+def _overlay(unit, tier, seed=0):
+    try:
+        return unit.overlay(tier, seed)
+    except TypeError:
+        return unit.overlay(tier)
+
+
+def apply_overlay(repo, unit, tier, seed=0):
     applied = []
-    for ov in unit.overlay(tier):
+    for ov in _overlay(unit, tier, seed):
         src = ov["src"]
         if "\n" not in src:
             src = open(os.path.join(KANI_DIR, src)).read()
@@ -102,7 +109,8 @@ def classify(parsed, harness_file_hint, allow_unreachable=()):
     real = [c for c in real if c not in unsupported]
     # vacuity: cover statements must be satisfied
     covers = [c for c in parsed["checks"] if ".cover." in c["id"]]
-    bad_cover = [c for c in covers if c["status"] != "SATISFIED"]
+    bad_cover = [c for c in covers if c["status"] != "SATISFIED"
+                 and not any(a in c["description"] for a in allow_unreachable)]
     if real:
         return "failed", "; ".join("%s @ %s" % (c["description"], c["location"]) for c in real[:4])
     if unwind:
@@ -175,20 +183,25 @@ def run_unit(unit_name, tier, seed, only_props=None, want_playback=True, log=sys
     t0 = time.time()
     with Scratch(unit_name) as sc:
         try:
-            result["overlay"] = apply_overlay(sc.repo, unit, tier)
+            result["overlay"] = apply_overlay(sc.repo, unit, tier, seed)
         except RuntimeError as e:
             result["error"] = str(e)
             return result
-        hint = result["overlay"][0]["harness_file"] if result["overlay"] else None
+        hint = result["overlay"][-1]["harness_file"] if result["overlay"] else None
         cmd = kani_cmd([h["name"] for h in hs], flags, max_timeout, JOBS)
         result["cmd"] = " ".join(cmd[:12]) + " ... (%d harnesses)" % len(hs)
         overall = 600 + max_timeout * (len(hs) // JOBS + 2)
-        rc, out, secs = run(cmd, cwd=sc.repo, timeout=overall, as_gb=AS_GB)
+        rc, out, secs = run(cmd, cwd=sc.repo, timeout=overall, rss_kill_gb=RSS_GB)
         result["build_and_verify_s"] = round(secs, 1)
+        if os.environ.get("VERIF_DEBUG"):
+            open(os.path.join(os.environ["VERIF_DEBUG"], unit_name + ".kani.log"), "w").write(out or "")
         outdir = os.path.join(sc.repo, "result_output_dir")
         if rc is None:
             result["error"] = "cargo kani exceeded the overall time limit (%ds)" % overall
-        elif re.search(r"^error(\[E\d+\])?:", out, re.M) and not os.path.isdir(outdir):
+        elif not os.path.isdir(outdir):
+            tail = "\n".join(l for l in (out or "").split("\n") if l.strip() and not l.startswith(("warning", " ")))[-800:]
+            result["error"] = "cargo kani produced no results (exit %s): %s" % (rc, tail)
+        if re.search(r"^error(\[E\d+\])?:", out or "", re.M) and not os.path.isdir(outdir):
             errs = re.findall(r"^error.*(?:\n.*){0,6}", out, re.M)
             result["error"] = "harness does not compile against /repo (lost anchor?):\n" + "\n".join(errs[:3])
         failed = []
@@ -211,7 +224,7 @@ def run_unit(unit_name, tier, seed, only_props=None, want_playback=True, log=sys
         if want_playback:
             for entry in failed[:(2 if tier == 'quick' else 8)]:
                 cmd = kani_cmd([entry["name"]], flags, entry.get("timeout", 120), 1, playback=True)
-                rc, out, secs = run(cmd, cwd=sc.repo, timeout=entry.get("timeout", 120) + 300, as_gb=AS_GB)
+                rc, out, secs = run(cmd, cwd=sc.repo, timeout=entry.get("timeout", 120) + 300, rss_kill_gb=RSS_GB)
                 test = extract_playback(out)
                 entry["playback_test"] = test
                 entry["playback_values"] = decode_playback(test)
